@@ -7,7 +7,7 @@ func init() {
 			return []Inst{inst("cmd/bisquitt-pub", "VH_TOOL_pub"), inst("cmd/bisquitt-sub", "VH_TOOL_sub"), inst("cmd/bisquitt", "VH_TOOL_gateway"), inst("topics", "VH_C30_merge", 0, 1), inst("topics", "VH_C30_merge", 1, 1), inst("topics", "VH_C30_merge", 0, 2), inst("topics", "VH_C30_merge", 1, 2), inst("topics", "VH_C30_merge", 2, 1)}
 		},
 		Thor: func() []Inst {
-			return []Inst{inst("cmd/bisquitt-pub", "VH_TOOL_pub"), inst("cmd/bisquitt-sub", "VH_TOOL_sub"), inst("cmd/bisquitt", "VH_TOOL_gateway"), inst("topics", "VH_C30_merge", 0, 1), inst("topics", "VH_C30_merge", 1, 1), inst("topics", "VH_C30_merge", 0, 2), inst("topics", "VH_C30_merge", 1, 2), inst("topics", "VH_C30_merge", 2, 2), inst("topics", "VH_C30_merge", 0, 3), inst("topics", "VH_C30_merge", 2, 3)}
+			return []Inst{inst("cmd/bisquitt-pub", "VH_TOOL_pub"), inst("cmd/bisquitt-sub", "VH_TOOL_sub"), inst("cmd/bisquitt", "VH_TOOL_gateway"), inst("topics", "VH_C30_merge", 0, 1), inst("topics", "VH_C30_merge", 1, 1), inst("topics", "VH_C30_merge", 0, 2), inst("topics", "VH_C30_merge", 1, 2), inst("topics", "VH_C30_merge", 2, 2), Inst{Pkg: "topics", Fn: "VH_C30_merge", Args: []int64{0, 3}, MaxPaths: 400000}, Inst{Pkg: "topics", Fn: "VH_C30_merge", Args: []int64{2, 3}, MaxPaths: 400000}}
 		},
 		Asserts: []string{"C30.options_parse", "C30.merge_entry_present", "C30.merge_entry_value", "C30.tool_reads_topics_file", "C30.tool_option_overrides_file", "C30.tool_starts_when_allowed"},
 		Reach:   []string{"C30.entry_found", "C30.tool_file_given", "C30.tool_option_given"},
@@ -103,7 +103,8 @@ func c16Insts(maxrc int64) []Inst {
 		for kind := int64(0); kind <= 2; kind++ {
 			out = append(out, Inst{Pkg: "gateway", Fn: "VH_C16_flow", Args: []int64{qos, kind, 1, 0, -1, -1}, LoopBound: 400})
 			for rc := int64(1); rc <= maxrc; rc++ {
-				if kind == 1 && rc > 1 {
+				if (kind == 1 || qos == 2) && rc > 1 {
+					// (RetryCount 2 with QoS 2 exceeds the path budget: reduced bound)
 					continue
 				}
 				for f1 := int64(0); f1 <= 2; f1++ {
@@ -128,7 +129,7 @@ func init() {
 			"C16.qos2_handshake_completes_at_broker", "C16.qos2_handler_runs_exactly_once", "C16.delivered_message_is_the_brokers", "C16.exactly_retrycount_retransmissions", "C16.transaction_gone_after_budget"},
 		Reach: []string{"C16.flow_done", "C16.overbudget_done"},
 		Bounds: map[string]string{
-			"flow":   "one broker PUBLISH QoS 1 or 2 (message ID, payload, retain symbolic) on a short / registered / new (REGISTER step included) topic; real gateway handler with its retry transactions in virtual time (RetryDelay symbolic, RetryCount 1; thorough 1..2) and the real client's handlePacket; a model broker answering PUBREC with PUBREL; the fate of every datagram in both directions is a symbolic choice among deliver / drop / duplicate with at most RetryCount consecutive non-deliveries per direction; up to 4*(RetryCount+2) timer rounds",
+			"flow":   "one broker PUBLISH QoS 1 or 2 (message ID, payload, retain symbolic) on a short / registered / new (REGISTER step included) topic; real gateway handler with its retry transactions in virtual time (RetryDelay symbolic, RetryCount 1; thorough also RetryCount 2 for QoS 1 on short and new topics) and the real client's handlePacket; a model broker answering PUBREC with PUBREL; the fate of every datagram in both directions is a symbolic choice among deliver / drop / duplicate with at most RetryCount consecutive non-deliveries per direction; up to 4*(RetryCount+2) timer rounds",
 			"budget": "client never answers: RetryCount 0..2 (thorough 0..3)",
 		},
 		Outside: []string{"several messages in flight", "loss on the broker (TCP) side", "predefined topics (routing: C32)"},
@@ -188,7 +189,13 @@ func init() {
 
 func c26Seqs(thorough bool) []Inst {
 	var out []Inst
-	add := func(a, b, c int64) { out = append(out, inst("gateway", "VH_C26_seq", 60, a, b, c)) }
+	add := func(a, b, c int64) {
+		in := inst("gateway", "VH_C26_seq", 60, a, b, c)
+		if thorough {
+			in.MaxPaths = 60000
+		}
+		out = append(out, in)
+	}
 	for o := int64(1); o <= 11; o++ {
 		add(o, 0, 0)
 	}
